@@ -32,12 +32,12 @@ def _nontrivial(model):
     return ops >= 3
 
 
-def _kind_ok(a, r, what, inp, fn):
+def _kind_ok(a, r, what, inp, fn, sub='expr'):
     pred = bool(getattr(a, 'is_predicate', False))
     if what == 'same':
         ok = bool(getattr(r, 'is_predicate', False)) == pred and (pred or getattr(r, 'is_expression', False))
         if ok and not pred and r.data_type != a.data_type and fn == 'simplify':
-            raise Violation('total', f'{fn}:type-changed', inp, f'{fn} changed the type {a.data_type} -> {r.data_type} of {a}')
+            raise Violation(sub, f'{fn}:type-changed', inp, f'{fn} changed the type {a.data_type} -> {r.data_type} of {a}')
     elif what == 'list-expr':
         ok = isinstance(r, list) and all(getattr(x, 'is_expression', False) for x in r)
     elif what == 'pair':
@@ -45,19 +45,20 @@ def _kind_ok(a, r, what, inp, fn):
     else:
         raise ValueError(what)
     if not ok:
-        raise Violation('total', f'{fn}:kind', inp, f'{fn}({a}) returned {r!r}'[:400])
+        raise Violation(sub, f'{fn}:kind', inp, f'{fn}({a}) returned {r!r}'[:400])
 
 
-def check_expr_functions(a, inp, stats=None):
+def check_expr_functions(a, inp, stats=None, sub='expr', vinp=None):
     """Apply every expression/predicate-level rewriting function to AST a."""
     from hpl import rewrite as rw
 
     model = astx.to_model(a)
     pred = bool(getattr(a, 'is_predicate', False))
     text = inp.get('text')
+    vinp = vinp if vinp is not None else inp  # what a replay of `sub` needs
 
     def fail(fn, exc):
-        raise Violation('total', f'{fn}:{core.exc_sig(exc)}', inp, f'{fn} failed on the accepted input {text!r} ({a}): {type(exc).__name__}: {str(exc)[:300]}')
+        raise Violation(sub, f'{fn}:{core.exc_sig(exc)}', vinp, f'{fn} failed on the accepted input {text!r} ({a}): {type(exc).__name__}: {str(exc)[:300]}')
 
     # simplify
     if ev.closed_ok(model):
@@ -69,7 +70,7 @@ def check_expr_functions(a, inp, stats=None):
             elif stats is not None:
                 stats['simplify:raise-allowed'] = stats.get('simplify:raise-allowed', 0) + 1
         else:
-            _kind_ok(a, r, 'same', inp, 'simplify')
+            _kind_ok(a, r, 'same', vinp, 'simplify', sub)
     elif stats is not None:
         stats['simplify:size-bound'] = stats.get('simplify:size-bound', 0) + 1
     boolean = pred or a.data_type.can_be_bool
@@ -79,27 +80,27 @@ def check_expr_functions(a, inp, stats=None):
             if not (type(r) is ValueError and any(n == ('lit', 'bool', False) for n in ev._walk(model))):
                 fail('split_and', r)
         else:
-            _kind_ok(a, r, 'list-expr', inp, 'split_and')
+            _kind_ok(a, r, 'list-expr', vinp, 'split_and', sub)
         for fn in ('get_conjuncts', 'get_disjuncts'):
             st, r = core.guarded(getattr(rw, fn), a)
             if st == 'exc':
                 fail(fn, r)
-            _kind_ok(a, r, 'list-expr', inp, fn)
+            _kind_ok(a, r, 'list-expr', vinp, fn, sub)
             if not r:
-                raise Violation('total', f'{fn}:empty', inp, f'{fn}({a}) returned an empty list')
+                raise Violation(sub, f'{fn}:empty', vinp, f'{fn}({a}) returned an empty list')
         names = sorted({n.token[1:] for n in astx.preorder(a) if astx.cname(n) == 'HplVarReference'} - _bound_names(a)) + ['Zz']
         for alias in names:
             st, r = core.guarded(rw.refactor_reference, a, alias)
             if st == 'exc':
                 fail('refactor_reference', r)
-            _kind_ok(a, r, 'pair', inp, 'refactor_reference')
+            _kind_ok(a, r, 'pair', vinp, 'refactor_reference', sub)
     # replacements
     st, r = core.guarded(rw.replace_this_with_var, a, c13.V)
     if st == 'exc':
         if not (isinstance(r, TypeError) and pred and c13._type_clash_possible(a, lambda m: mast.map_expr(m, lambda n: ('var', c13.V) if n == ('this',) else n))):
             fail('replace_this_with_var', r)
     else:
-        _kind_ok(a, r, 'same', inp, 'replace_this_with_var')
+        _kind_ok(a, r, 'same', vinp, 'replace_this_with_var', sub)
     for alias in sorted(_message_aliases(a) - _bound_names(a)):
         st, r = core.guarded(rw.replace_var_with_this, a, alias)
         if st == 'exc':
@@ -107,7 +108,7 @@ def check_expr_functions(a, inp, stats=None):
             if not (isinstance(r, TypeError) and pred and c13._type_clash_possible(a, subst)):
                 fail('replace_var_with_this', r)
         else:
-            _kind_ok(a, r, 'same', inp, 'replace_var_with_this')
+            _kind_ok(a, r, 'same', vinp, 'replace_var_with_this', sub)
 
 
 def _message_aliases(a):
@@ -153,10 +154,10 @@ def sub_property(inp):
     for role in ('activator', 'terminator'):
         evn = getattr(p.scope, role)
         for se in astx.flat_events(evn):
-            check_expr_functions(se.predicate, dict(inp, text=str(se.predicate)))
+            check_expr_functions(se.predicate, dict(inp, text=str(se.predicate)), sub='property', vinp=inp)
     for evn in (p.pattern.trigger, p.pattern.behaviour):
         for se in astx.flat_events(evn):
-            check_expr_functions(se.predicate, dict(inp, text=str(se.predicate)))
+            check_expr_functions(se.predicate, dict(inp, text=str(se.predicate)), sub='property', vinp=inp)
     return p
 
 
